@@ -37,13 +37,20 @@ class DigestMarker:
         return "DigestMarker(%r)" % (self.plaintext,)
 
 
-def run_validator(name, value):
+def run_validator(name, value, cfg=None, node=None):
     """The pool of custom field validators (pure)."""
     if not name or name == "v_ok":
         return value
     if name == "v_not42":
         if isinstance(value, (int, float, str)) and not isinstance(value, bool) and str(value) in ("42", "42.0"):
             raise ValueError("42 is not allowed")
+        return value
+    if name == "v_cross":
+        # cross-field rule: this value must not exceed the sibling named by the node (when both are set)
+        if cfg is not None and node is not None:
+            other = getattr(cfg, node["cross_with"], None)
+            if other is not None and value is not None and not isinstance(other, bool) and value > other:
+                raise ValueError("must be <= %s (%r)" % (node["cross_with"], other))
         return value
     raise AssertionError(name)
 
